@@ -620,6 +620,7 @@ def crosscheck(fn, leaves, rep, where, pmax, pmin):
 
 
 RULES = {
+    "R-C19-callers": "the callers named by the property hand fit_dtype bounds that cover every value they store: dense output (to_array) and collapsed pass a minimum for category values, collapsed sizes its output from all codes it can write, and the INDX writer sizes the coordinate word from max(coordinates, common) (imported from the C01/C06/C10 analyses)",
     "R-C19-tree": "fit_dtype is a ladder of comparisons with constants (decision tree extracted from the AST)",
     "R-C19-coverage": "every input in the domain reaches a dtype",
     "R-C19-contain": "leaf box (stored min/max) is inside the leaf dtype's range",
@@ -636,6 +637,17 @@ def main(tier):
     rep.assume("domain: 0<=min<=max<2^64 (unsigned) or -2^63<=min<0, min<=max<=2^63-1 (signed), plus the documented convention fit_dtype(max<0) meaning [max,max]")
     prog = Program()
     analyse(prog, rep, tier == "thorough")
+    # callers (anchors of the property): imported obligations
+    import c06
+    from sa import indx
+    nc = c06.fit_dtype_sites(prog, ["iindex.to_array", "iindex.collapsed"], rep, "R-C19-callers", lambda q: {"inputs": "category values that include a negative code"})
+    c06.rule_l(prog, rep, RID="R-C19-callers")
+    C, info, W, R = indx.analyse(prog)
+    for rule, status, where, construct, detail, witness in C.items:
+        if rule in ("R-C10-e", "R-C11-d"):
+            nc += 1
+            rep.add("R-C19-callers", where, "[%s] %s" % (rule, construct), status, detail, True, witness)
+    rep.floor("R-C19-callers", 6, nc)
     return rep.finish()
 
 
